@@ -243,7 +243,7 @@ def model1 (d : DState) (l : Line) : Option (State × List Verdict × DState) :=
         -- 5. the program cost the host reported = what the account is charged beyond the init cost
         let v4 :=
           match getNat l.obs "htc" with
-          | some htc => if l.op == "exec" && res == "ok" then cmp "exec.program_cost" (toString (htc + d.basePrice)) (toString spent.total6) else []
+          | some htc => if l.op == "exec" && res == "ok" then cmp "exec.program_cost" (toString (htc + (getNat l.obs "ibc").getD d.basePrice)) (toString spent.total6) else []
           | none => []
         let d := { d with debitsN := if charged then d.debitsN + 1 else d.debitsN,
                           multiSource := if charged && multi then d.multiSource + 1 else d.multiSource,
@@ -259,7 +259,7 @@ def model1 (d : DState) (l : Line) : Option (State × List Verdict × DState) :=
       let v := cmp s!"{l.op}.res" (outStr out) (if okRes then "ok" else "rej")
       some (s', v, { d with renewals := if out == .ok then d.renewals + 1 else d.renewals })
     | _, _, _, _, _, _, _, _, _, _ => none
-  | "mine" | "unlock" => some (s, [], d)
+  | "mine" | "unlock" | "setprices" => some (s, [], d)
   | _ => none
 
 def step1 (d : DState) (l : Line) : DState × List Verdict :=
